@@ -211,6 +211,7 @@ static void list_pass(const plan_t *p)
         model_t *m;
         R.cur_op = o; R.cur_op_index = i; R.op_steps = 0;
         if (s < 0 || s >= NSLOT) sim_skip("bad-slot");
+        paint_stack((int)plan_get(p, "stack.paint", 0xA5), 1536);   /* leftover stack contents are an input too */
         l = C[s]; m = &M[s];
         sa_set_tag(i + 1);
         if (!strcmp(k, "new")) {
@@ -379,6 +380,7 @@ static void vector_pass(const plan_t *p)
         model_t *m;
         R.cur_op = o; R.cur_op_index = i; R.op_steps = 0;
         if (s < 0 || s >= NSLOT) sim_skip("bad-slot");
+        paint_stack((int)plan_get(p, "stack.paint", 0xA5), 1536);   /* leftover stack contents are an input too */
         v = C[s]; m = &M[s];
         sa_set_tag(i + 1);
         if (!strcmp(k, "new")) {
@@ -514,6 +516,7 @@ static void map_pass(const plan_t *p)
         model_t *m;
         R.cur_op = o; R.cur_op_index = i; R.op_steps = 0;
         if (s < 0 || s >= NSLOT) sim_skip("bad-slot");
+        paint_stack((int)plan_get(p, "stack.paint", 0xA5), 1536);   /* leftover stack contents are an input too */
         mp = C[s]; m = &M[s];
         sa_set_tag(i + 1);
         if (!strcmp(k, "new")) {
@@ -612,6 +615,7 @@ static void gen_alloc_knobs(plan_t *p, rng_t *r)
     plan_knob(p, "alloc.fill", rng_range(r, 0, 4));
     plan_knob(p, "alloc.realloc", rng_chance(r, 1, 2) ? REALLOC_MOVE : rng_range(r, 1, 2));
     plan_knob(p, "alloc.reuse", rng_range(r, 0, 2));
+    { static const int paints[] = { 0x00, 0xA5, 0xFF, 0x5A }; plan_knob(p, "stack.paint", paints[rng_below(r, 4)]); }
 }
 static long gen_idx(rng_t *r, int len)
 {
